@@ -76,22 +76,47 @@ class ScriptedConnection(object):
         self.reader = ScriptedReader(loop)
         self.writer = RecordingWriter(self._on_write)
         self.request_open = False           # set by the driver before a request is written
-        conn = Connection(('127.0.0.1', 80), hostname='h.test')
+        self.reconnects = 0                 # times the code re-connected THIS connection object (Connection.connect)
+        self._consumed_base = 0             # bytes consumed on earlier incarnations
+        owner = self
+
+        class _Conn(Connection):
+            # a closed connection that the code resets and connects again reaches the same scripted server, which goes on
+            # with its script: the next request written gets the next scripted response
+            @asyncio.coroutine
+            def connect(self):
+                owner._rearm()
+                return
+                yield       # pragma: no cover
+        conn = _Conn(('127.0.0.1', 80), hostname='h.test')
+        self.connection = conn
+        self._wire(first=True)
+
+    def _wire(self, first=False):
+        conn = self.connection
         conn.reader = self.reader
         conn.writer = self.writer
         conn._close_timer = DummyCloseTimer()
         conn._state = ConnectionState.created
         # wrap the reader's read to log what each read delivered (observation only)
-        real_read = self.reader.read
+        reader = self.reader
+        real_read = reader.read
 
         async def logged_read(n=-1):
-            before = self.reader.consumed()
+            before = self.consumed()
             data = await real_read(n)
             if data:
                 self.read_log.append((before, len(data)))
             return data
-        self.reader.read = logged_read
-        self.connection = conn
+        reader.read = logged_read
+
+    def _rearm(self):
+        self.reconnects += 1
+        self._consumed_base += self.reader.consumed()
+        self.reader = ScriptedReader(self.loop)
+        self.writer.closed = False
+        self._wire()
+        self.request_open = True
 
     def begin_exchange(self):
         """The driver calls this just before a request is written; the first byte
@@ -115,4 +140,4 @@ class ScriptedConnection(object):
         return self.connection.state() == ConnectionState.dead
 
     def consumed(self):
-        return self.reader.consumed()
+        return self._consumed_base + self.reader.consumed()
